@@ -7,12 +7,12 @@ func init() {
 		ID:    "C16",
 		Title: "What the gateway reports about its schema is the schema it enforces",
 		Kernels: []Kernel{
-			{Name: "type-entries", Pkg: ".", Files: files, Entry: "VerifIntrospectionAnswers", Mode: "seq",
+			{Name: "type-entries", Pkg: ".", Files: files, Entry: "VerifIntrospectionAnswers", Mode: "seq", Native: true,
 				Reach: []string{"type entry checked"}, Functions: fns,
 				Known: []string{"C16-type-name-by-variable", "C16-shape-per-kind", "C16-interface-possible-types", "C16-input-field-defaults"}},
-			{Name: "sibling-selections", Pkg: ".", Files: files, Entry: "VerifIntrospectionSiblings", Mode: "seq",
+			{Name: "sibling-selections", Pkg: ".", Files: files, Entry: "VerifIntrospectionSiblings", Mode: "seq", Native: true,
 				Reach: []string{"sibling selections checked"}, Functions: fns},
-			{Name: "round-trip", Pkg: ".", Files: files, Entry: "VerifIntrospectionRoundTrip", Mode: "seq",
+			{Name: "round-trip", Pkg: ".", Files: files, Entry: "VerifIntrospectionRoundTrip", Mode: "seq", Native: true,
 				Reach: []string{}, Functions: fns,
 				Known: []string{"C16-second-gateway-cannot-introspect"}},
 		},
